@@ -16,7 +16,8 @@ RULE = (
     "bet delay; distinct = distinct scenario digests"
 )
 ASSUMPTIONS = [
-    "exact-boundary policy: elapsed == delay is asserted (must not execute) only in float-exact (dyadic) scenarios; within 1e-6 either verdict is accepted otherwise",
+    "exact-boundary policy: publish times are whole milliseconds, so an update exactly latency (+ bet delay) after the request is not 'more than' it and must not execute the request; only where the delay is a float sum on which exact decimal arithmetic and plain float arithmetic disagree either verdict is accepted",
+    "a quarter of the scenarios run under a foreign host time zone (scenario key tz)",
     "fragment time stamps of placement fills are the publish time of the book matched against (previous update); only 'not from the future' is demanded of them",
 ]
 COMPONENTS = common.COMPONENTS_A
